@@ -46,7 +46,7 @@ def node_obligations(func: str, scen: str, props: Sequence[str], level: str,
                      spec_body: Callable[[], str], levels: Dict[str, str],
                      want_start: bool = True, replay: Optional[Dict[str, Any]] = None,
                      shapes: Sequence[Any] = TIMES_SHAPES, body_nullable: bool = False,
-                     pinned: Optional[Callable[[], str]] = None) -> List[Ob]:
+                     pinned: Optional[Callable[[], str]] = None, unit: bool = False) -> List[Ob]:
     """run the real builder for every `times` shape and discharge the node contract"""
     obs: List[Ob] = []
     for shape in shapes:
@@ -147,6 +147,10 @@ def node_obligations(func: str, scen: str, props: Sequence[str], level: str,
                                lambda: vc.end(cb, level, lv, allow_empty=body_nullable), props, rp))
             obs.append(lang_ob(base + ":ENTRY", func, "ENTRY", "children / look-aheads are entered at a boundary of their level",
                                lambda: vc.entry(cb, level, lv), props, rp))
+            if unit:
+                obs.append(lang_ob(base + ":UNIT", func, "UNIT",
+                                   f"one occurrence consumes exactly one {'instruction record' if level == G.INST else 'operand field'}",
+                                   lambda: vc.unit(cb, level, lv), props, rp))
             if level == G.INST and want_start:
                 obs.append(lang_ob(base + ":START-a", func, "START",
                                    "a match anywhere in a stream begins at a record start or inside an address",
@@ -162,7 +166,7 @@ def node_obligations(func: str, scen: str, props: Sequence[str], level: str,
     return obs
 
 
-ALIGNMENT_FAMILIES = {"END", "ENTRY", "START", "CLOSED"}
+ALIGNMENT_FAMILIES = {"END", "ENTRY", "START", "CLOSED", "UNIT"}
 
 
 def _serves(prop: str, o: Ob) -> bool:
@@ -179,6 +183,9 @@ def children_shapes(level: str, levels: Dict[str, str], max_k: int = 3):
     """concrete arities 1..max_k and the unbounded symbolic sequence (min_len 1)"""
     for k in range(1, max_k + 1):
         yield f"k{k}", (lambda k=k: [child_stub(f"c{j}", level, levels) for j in range(1, k + 1)])
+    # children that compile to the SAME regex text (the same item written twice)
+    yield "k2same", (lambda: [child_stub("c1", level, levels), child_stub("c1", level, levels)])
+    yield "k3same", (lambda: [child_stub("c1", level, levels), child_stub("c2", level, levels), child_stub("c1", level, levels)])
     yield "seq", (lambda: SymSeq("children", child_stub("cg", level, levels), min_len=1))
 
 
@@ -189,7 +196,7 @@ def spec_children(kids) -> List[str]:
 # --------------------------------------------------------------------------- $or / $and / $and_any_order / $not
 def _operator(cls_name: str, op: str, props: Sequence[str]):
     for level in (G.INST, G.OPER, G.DEREF):
-        for cshape in ("k1", "k2", "k3", "seq"):
+        for cshape in ("k1", "k2", "k3", "k2same", "k3same", "seq"):
             sid = f"{op}:{level}:{cshape}"
             func = f"jasm.jasm_regex.tree_generators.pattern_node_implementations.node_branch_root.{cls_name}.get_regex"
 
@@ -255,7 +262,7 @@ def _not():
                 # exactly one whole operand field at which x fails
                 return f"(?!{c})[^,|]*,"
             rp = {"kind": "operator", "op": "$not", "level": level, "children": "k1"}
-            return node_obligations(func, sid, ["C04", "C02", "C07"], level, build, spec, levels, replay=rp)
+            return node_obligations(func, sid, ["C04", "C02", "C07"], level, build, spec, levels, replay=rp, unit=True)
         scenario(sid, func, ["C04", "C02", "C07"],
                  inlined=["LogicalOperationBaseNode.get_regex", "process_children", "NodeNot._make_main_regex",
                           "TimesTypeBuilder.get_min_max_regex"], doc=f"$not at {level} level")(run)
@@ -313,7 +320,8 @@ def _mnemonic():
                     # operand fields in order, any further fields of the same record, "|"
                     return f"{HEXADDR}{_window(str.__str__(w), fm)},{ops}{REST_OF_RECORD}"
                 rp = {"kind": "mnemonic", "fm": fm, "children": cshape, "level": G.INST}
-                return node_obligations(MN_FUNC, sid, ["C01", "C02", "C07"], G.INST, build, spec, levels, replay=rp)
+                return node_obligations(MN_FUNC, sid, ["C01", "C02", "C07"], G.INST, build, spec, levels, replay=rp,
+                                        unit=True)
             scenario(sid, MN_FUNC, ["C01", "C02", "C07"],
                      inlined=["PatternNodeMnemonic.get_operand_regex", "get_min_max_regex", "_form_regex_with_time",
                               "_form_regex_without_time", "InstructionNodeHelper.get_pattern_node_name",
@@ -359,7 +367,7 @@ def _operand():
                     return f"{_window('0x' + str.__str__(n.stem), fo)},"
                 rp = {"kind": "operand", "fo": fo, "cat": cat, "level": G.OPER}
                 return node_obligations(OP_FUNC, sid, ["C01", "C07"], G.OPER, build, spec, levels, replay=rp,
-                                        shapes=["one"], pinned=pinned if cat == "hexh" else None)
+                                        shapes=["one"], pinned=pinned if cat == "hexh" else None, unit=True)
             scenario(sid, OP_FUNC, ["C01", "C07"],
                      inlined=["PatternNodeOperand._is_hex_operand", "_process_hex_operand",
                               "InstructionNodeHelper.get_pattern_node_name", "allow_matching_substring"],
